@@ -52,6 +52,19 @@ CHECKS = {
          'Rounding outside the theorems. The matcher is scripted (ground truth). Trusted: Coq kernel + vm_compute, '
          'python harness, astropy/wcslib transforms used to compute expected tangent-plane coordinates.',
          'DESIGN.md section 6 (C08/C09)'),
+ 'C10': ('Coq proof over R (build_fit_matrix applied to the decomposition reproduces the matrix for every matrix with '
+         'non-zero columns; angle ranges; skew wrap; <scale>^2 = |det|; similarity scales) + correspondence in Coq '
+         'of every reported quantity, the residual identity and the statistics recomputed from reported residuals',
+         'Machine-checked theorems about the literal decomposition of _build_fit (atan2 defined from atan; hyp; '
+         'numpy floor-mod) for all matrices; each run evaluates, in exact rational arithmetic inside Coq, the '
+         'identities matrix = [[sx cos rx, sy sin ry], [-sx sin rx, sy cos ry]], skew/<rot>/<scale>/proper/ranges '
+         'on the values REPORTED by _build_fit (all quadrants, reflections, special angles) and by iter_linear_fit, '
+         'the residual identity xy - (F (uv - c) + s + c), and rmse/mae/std recomputed from the reported residuals '
+         'and weights.',
+         'Theorems depend on the standard library real-number axioms (sig_forall_dec, sig_not_dec, '
+         'functional_extensionality_dep, classic). arctan2/cos/sin are libm (cos/sin of reported angles taken from '
+         'python math). PARTIAL: left-inverse direction of build_fit_matrix not proved (measured).',
+         'DESIGN.md section 6 (C10)'),
  'C15': ('Coq proof (arg-max pair, reference choice, true area, exact removal, sorted remainder, next image, grouping '
          'order; all list lengths) + correspondence in Coq on every permutation of generated footprint sets',
          'Machine-checked theorems about executable models of _max_overlap_pair, _max_overlap_image and the '
